@@ -10,14 +10,11 @@
 package c18
 
 import (
-	"fmt"
 	"net/http"
 	"net/url"
 	"strings"
 	"testing"
 	"time"
-
-	"github.com/zitadel/oidc/v3/pkg/op"
 
 	"verif/harness/engine"
 	"verif/harness/rig"
@@ -79,11 +76,11 @@ type uriDef struct {
 }
 
 var uris = []uriDef{
-	{"regA", "https://a.example/out", "registered"},
+	{"regA", "https://a.example/out", "registered-for-A"},
 	{"absent", "", "absent"},
-	{"regA-with-query", "https://a.example/q?k=v", "registered"},
-	{"shared", "https://shared.example/out", "registered"},
-	{"regB-only", "https://b.example/out", "other-client"},
+	{"regA-with-query", "https://a.example/q?k=v", "registered-for-A"},
+	{"shared", "https://shared.example/out", "registered-for-A-and-B"},
+	{"regB-only", "https://b.example/out", "registered-for-B-only"},
 	{"near-slash", "https://a.example/out/", "near-miss"},
 	{"near-case", "https://a.example/OUT", "near-miss"},
 	{"near-extra-query", "https://a.example/out?x=1", "near-miss"},
@@ -342,6 +339,3 @@ func TestCheck(t *testing.T) {
 	})
 	c.Finish()
 }
-
-var _ = op.ApplicationTypeWeb
-var _ = fmt.Sprintf
